@@ -44,6 +44,7 @@ TRUSTED_RX = [
     ('external', re.compile(r'#\[verifier::external(_fn_specification|_type_specification|_trait_specification)?\]')),
     ('eq-axiom', re.compile(r'impl\s+vstd::std_specs::cmp::PartialEqSpecImpl\s+for\s+[^\{]+')),
     ('uninterp', re.compile(r'\buninterp\s+spec\s+fn\s+\w+')),
+    ('trait-contract', re.compile(r'^\s*pub(\(crate\))?\s+trait\s+\w+')),
     ('axiom', re.compile(r'\baxiom\s+fn\s+\w+|broadcast\s+axiom\s+fn\s+\w+')),
 ]
 
